@@ -234,6 +234,7 @@ def bounds_in_region(lin, region):
 class Interp:
     def __init__(self, facts):
         self.facts = facts
+        self.call_hook = None       # Call node -> value for calls that stand for the input (the inner evaluation in Hi.eval / Lo.eval)
 
     def call_regions(self, fname, args):
         """Like call(), but an `if <linear form> <op> <constant>` at the top level of the function splits the input space into
@@ -368,11 +369,12 @@ class Interp:
                 if isinstance(cond, int):
                     branch = st.body if cond else st.orelse
                     return self.block(list(branch) + list(rest), env, fname, depth)
-                if not (isinstance(cond, Lin) and cond.const == 0 and len(cond.coefs) == 1):
+                bt = as_bit_test(cond)
+                if bt is None:
                     raise Unsupported('{}: branch on {} is not a single-bit test'.format(fname, unparse(st.test)))
-                (atom, coef), = cond.coefs.items()
-                if atom == SH or coef == 0:
-                    raise Unsupported('{}: branch on the unbounded part'.format(fname))
+                atom, pol = bt
+                if not pol:
+                    st = ast.If(test=st.test, body=st.orelse, orelse=st.body)
                 has_return = any(isinstance(n, ast.Return) for b in (st.body, st.orelse) for x in b for n in ast.walk(x))
                 if has_return:
                     outs = []
@@ -422,6 +424,42 @@ class Interp:
             a = self.ev(node.left, env, fname, depth)
             b = self.ev(node.right, env, fname, depth)
             return self.binop(type(node.op), a, b, fname, node)
+        if isinstance(node, ast.Compare) and len(node.ops) == 1:
+            # (v & 0x800) != 0, (v & 0x800) == 0x800, (v >> 11) & 1 == 1: the truth value is the bit (or its negation)
+            left = self.ev(node.left, env, fname, depth)
+            right = self.ev(node.comparators[0], env, fname, depth)
+            if isinstance(left, Lin) and left.is_const():
+                left = left.const
+            if isinstance(right, Lin) and right.is_const():
+                right = right.const
+            if isinstance(left, int) and isinstance(right, int):
+                try:
+                    return int(bool(fold(ast.Compare(left=ast.Constant(value=left), ops=node.ops, comparators=[ast.Constant(value=right)]))))
+                except NotConstant:
+                    return self._unsup(fname, node)
+            r = compare_bit(left, type(node.ops[0]), right)
+            return r if r is not None else self._unsup(fname, node)
+        if isinstance(node, ast.UnaryOp) and isinstance(node.op, ast.Not):
+            v = self.ev(node.operand, env, fname, depth)
+            if isinstance(v, Lin) and v.is_const():
+                v = v.const
+            if isinstance(v, int):
+                return int(not v)
+            bt = as_bit_test(v)
+            if bt is None:
+                return self._unsup(fname, node)
+            return Lin({bt[0]: -1}, 1) if bt[1] else Lin({bt[0]: 1}, 0)
+        if isinstance(node, ast.Call) and isinstance(node.func, ast.Name) and node.func.id == 'bool' and 'bool' not in self.facts.funcs \
+                and len(node.args) == 1 and not node.keywords:
+            v = self.ev(node.args[0], env, fname, depth)
+            if isinstance(v, Lin) and v.is_const():
+                v = v.const
+            if isinstance(v, int):
+                return int(bool(v))
+            bt = as_bit_test(v)
+            if bt is None:
+                return self._unsup(fname, node)
+            return Lin({bt[0]: 1}, 0) if bt[1] else Lin({bt[0]: -1}, 1)
         if isinstance(node, ast.IfExp):
             # a if t else b  with t a constant or a single-bit test: the two arms re-joined linearly on that bit
             cond = self.ev(node.test, env, fname, depth)
@@ -429,17 +467,20 @@ class Interp:
                 cond = cond.const
             if isinstance(cond, int):
                 return self.ev(node.body if cond else node.orelse, env, fname, depth)
-            if not (isinstance(cond, Lin) and cond.const == 0 and len(cond.coefs) == 1):
+            bt = as_bit_test(cond)
+            if bt is None:
                 raise Unsupported('{}: condition of `{}` is not a single-bit test'.format(fname, unparse(node)))
-            (atom, coef), = cond.coefs.items()
-            if atom == SH or coef == 0:
-                raise Unsupported('{}: condition on the unbounded part'.format(fname))
+            atom, pol = bt
             outs = []
-            for val, arm in ((1, node.body), (0, node.orelse)):
+            for val, arm in ((1, node.body if pol else node.orelse), (0, node.orelse if pol else node.body)):
                 e2 = {k: (v.subst(atom, val) if isinstance(v, Lin) else v) for k, v in env.items()}
                 r = self.ev(arm, e2, fname, depth)
                 outs.append(Lin({}, r) if isinstance(r, int) else r)
             return join_on_bit(atom, outs[0], outs[1], fname)
+        if isinstance(node, ast.Call) and self.call_hook is not None:
+            hooked = self.call_hook(node)
+            if hooked is not None:
+                return hooked
         if isinstance(node, ast.Call) and isinstance(node.func, ast.Name) and node.func.id in self.facts.funcs:
             if depth > 4:
                 raise Unsupported('inlining depth')
@@ -506,6 +547,10 @@ class Interp:
             return self._unsup(fname, node)
         if op is ast.RShift and isinstance(b, int) and b >= 0:
             return shift_right(a, b)
+        if op is ast.FloorDiv and isinstance(b, int) and b > 0 and b & (b - 1) == 0:
+            return shift_right(a, b.bit_length() - 1)          # floor division by 2**k is the arithmetic shift
+        if op is ast.Mod and isinstance(b, int) and b > 0 and b & (b - 1) == 0:
+            return mask_low(a, b.bit_length() - 1)             # x % 2**k == x & (2**k - 1) for every integer x
         if op is ast.LShift and isinstance(b, int) and 0 <= b < 64 and isinstance(a, Lin):
             return a.scale(1 << b)
         if op is ast.Mult and isinstance(b, int) and isinstance(a, Lin):
@@ -513,6 +558,39 @@ class Interp:
         if op is ast.Mult and isinstance(a, int) and isinstance(b, Lin):
             return b.scale(a)
         return self._unsup(fname, node)
+
+
+def as_bit_test(cond):
+    """(atom, polarity) when the truth of `cond` is one input bit (polarity True) or its negation: c*b with c != 0 is true iff
+    b is set; the 0 / 1 forms b and 1 - b produced by comparisons of a single-bit value."""
+    if isinstance(cond, Lin) and len(cond.coefs) == 1:
+        (atom, coef), = cond.coefs.items()
+        if atom != SH and coef != 0:
+            if cond.const == 0:
+                return atom, True
+            if cond.const == 1 and coef == -1:
+                return atom, False
+    return None
+
+
+def compare_bit(left, op, right):
+    """Truth value (as a 0 / 1 linear form) of `left <op> right` for a single-bit value left = c*b (c > 0) and a constant."""
+    if isinstance(left, int) and isinstance(right, Lin):
+        left, right = right, left
+        op = {ast.Lt: ast.Gt, ast.LtE: ast.GtE, ast.Gt: ast.Lt, ast.GtE: ast.LtE}.get(op, op)
+    if not (isinstance(left, Lin) and isinstance(right, int) and left.const == 0 and len(left.coefs) == 1):
+        return None
+    (atom, c), = left.coefs.items()
+    if atom == SH or c <= 0:
+        return None
+    bit, nbit = Lin({atom: 1}, 0), Lin({atom: -1}, 1)
+    outcomes = {v: {ast.Eq: v == right, ast.NotEq: v != right, ast.Lt: v < right, ast.LtE: v <= right, ast.Gt: v > right,
+                    ast.GtE: v >= right}.get(op) for v in (0, c)}
+    if None in outcomes.values():
+        return None
+    if outcomes[0] == outcomes[c]:
+        return int(outcomes[0])
+    return bit if outcomes[c] else nbit
 
 
 def join_on_bit(atom, t, f, fname):
@@ -545,3 +623,203 @@ def congruence_and_range(x):
     if isinstance(x, int):
         return Lin({}, x), None, x, x
     raise Unsupported('result kind {}'.format(type(x).__name__))
+
+
+# ---------------------------------------------------------------------------------------------------------------------------------
+# Concrete refutation.  When a spelling of the %hi / %lo arithmetic leaves the linear-form fragment nothing is proved - but the code
+# can still be positively wrong.  The analyser's own evaluator of the pure integer fragment (Python's unbounded ints: the host's int
+# arithmetic *is* the semantics; nothing of the analysed module is imported or run) computes the function on a fixed sample of inputs:
+# every value of the low 13 bits (the carry out of bit 11 and its neighbour) in each class of upper bits where a wrap can occur.  A
+# sample that contradicts the specification is a counterexample, hence a finding; agreement on the sample is no proof and stays a
+# no-verdict.
+class NotConcrete(Exception):
+    pass
+
+
+class _Return(Exception):
+    def __init__(self, value):
+        self.value = value
+
+
+SAMPLE_BASES = (0, 0x2000, 0x7fffe000, 0x80000000, 0xffffe000, 1 << 32, (1 << 35) + 0x4000, -0x2000, -0x80000000, -(1 << 32) - 0x2000, -(1 << 36))
+
+
+def sample_values():
+    for base in SAMPLE_BASES:
+        for low in range(1 << 13):
+            yield base + low
+
+
+class Concrete:
+    """Evaluator of straight-line / branching integer code: names, int constants, + - * // % ** << >> & | ^ ~ and unary minus,
+    comparisons, and / or / not, conditional expressions, bool() / int() / abs() / min() / max() of ints, c_int32(x).value /
+    c_uint32(x).value, calls of module-level functions of the same fragment (inlined), Assign / AugAssign / If / Return / pass."""
+
+    def __init__(self, facts, call_hook=None, max_depth=6):
+        self.facts = facts
+        self.call_hook = call_hook
+        self.max_depth = max_depth
+
+    def run(self, body, env, depth=0):
+        try:
+            self.block(body, env, depth)
+        except _Return as r:
+            return r.value
+        raise NotConcrete('falls off the end')
+
+    def block(self, body, env, depth):
+        for st in body:
+            if isinstance(st, ast.Return):
+                raise _Return(self.ev(st.value, env, depth) if st.value is not None else None)
+            if isinstance(st, ast.Assign) and len(st.targets) == 1 and isinstance(st.targets[0], ast.Name):
+                env[st.targets[0].id] = self.ev(st.value, env, depth)
+            elif isinstance(st, ast.AugAssign) and isinstance(st.target, ast.Name):
+                env[st.target.id] = self.binop(type(st.op), self.ev(ast.Name(id=st.target.id, ctx=ast.Load()), env, depth),
+                                               self.ev(st.value, env, depth))
+            elif isinstance(st, ast.If):
+                self.block(st.body if self.ev(st.test, env, depth) else st.orelse, env, depth)
+            elif isinstance(st, ast.Pass) or (isinstance(st, ast.Expr) and isinstance(st.value, ast.Constant)):
+                continue
+            else:
+                raise NotConcrete('statement {}'.format(type(st).__name__))
+
+    def binop(self, op, a, b):
+        if not (isinstance(a, int) and isinstance(b, int)):
+            raise NotConcrete('non-integer operand')
+        if op in (ast.LShift, ast.Pow) and not 0 <= b <= 4096:
+            raise NotConcrete('shift / power out of range')
+        if op is ast.RShift and b < 0:
+            raise NotConcrete('negative shift')
+        if op in (ast.FloorDiv, ast.Mod) and b == 0:
+            raise NotConcrete('division by zero')
+        f = {ast.Add: lambda: a + b, ast.Sub: lambda: a - b, ast.Mult: lambda: a * b, ast.FloorDiv: lambda: a // b, ast.Mod: lambda: a % b,
+             ast.Pow: lambda: a ** b, ast.LShift: lambda: a << b, ast.RShift: lambda: a >> b, ast.BitAnd: lambda: a & b,
+             ast.BitOr: lambda: a | b, ast.BitXor: lambda: a ^ b}.get(op)
+        if f is None:
+            raise NotConcrete('operator {}'.format(op.__name__))
+        return f()
+
+    def ev(self, node, env, depth):
+        if isinstance(node, ast.Constant):
+            if isinstance(node.value, (int, bool)):
+                return int(node.value) if isinstance(node.value, bool) else node.value
+            raise NotConcrete('constant {!r}'.format(node.value))
+        if isinstance(node, ast.Name):
+            if node.id in env:
+                return env[node.id]
+            if node.id not in self.facts.poison and node.id in self.facts.consts and isinstance(self.facts.consts[node.id], int):
+                return self.facts.consts[node.id]
+            raise NotConcrete('name {}'.format(node.id))
+        if isinstance(node, ast.BinOp):
+            return self.binop(type(node.op), self.ev(node.left, env, depth), self.ev(node.right, env, depth))
+        if isinstance(node, ast.UnaryOp):
+            v = self.ev(node.operand, env, depth)
+            if isinstance(node.op, ast.USub):
+                return -v
+            if isinstance(node.op, ast.UAdd):
+                return +v
+            if isinstance(node.op, ast.Invert):
+                return ~v
+            return int(not v)
+        if isinstance(node, ast.BoolOp):
+            v = None
+            for x in node.values:
+                v = self.ev(x, env, depth)
+                if isinstance(node.op, ast.And) and not v:
+                    return v
+                if isinstance(node.op, ast.Or) and v:
+                    return v
+            return v
+        if isinstance(node, ast.Compare):
+            left = self.ev(node.left, env, depth)
+            for op, comp in zip(node.ops, node.comparators):
+                right = self.ev(comp, env, depth)
+                f = {ast.Eq: left == right, ast.NotEq: left != right, ast.Lt: left < right, ast.LtE: left <= right, ast.Gt: left > right,
+                     ast.GtE: left >= right}.get(type(op))
+                if f is None:
+                    raise NotConcrete('comparison {}'.format(type(op).__name__))
+                if not f:
+                    return 0
+                left = right
+            return 1
+        if isinstance(node, ast.IfExp):
+            return self.ev(node.body if self.ev(node.test, env, depth) else node.orelse, env, depth)
+        if isinstance(node, ast.Attribute) and node.attr == 'value' and isinstance(node.value, ast.Call) \
+                and dotted(node.value.func) in ('c_int32', 'c_uint32', 'ctypes.c_int32', 'ctypes.c_uint32') and len(node.value.args) == 1:
+            v = self.ev(node.value.args[0], env, depth) & 0xffffffff
+            if dotted(node.value.func).endswith('c_int32') and v & 0x80000000:
+                v -= 1 << 32
+            return v
+        if isinstance(node, ast.Call):
+            if self.call_hook is not None:
+                r = self.call_hook(node, env)
+                if r is not None:
+                    return r
+            if isinstance(node.func, ast.Name) and node.func.id in self.facts.funcs:
+                if depth >= self.max_depth:
+                    raise NotConcrete('call depth')
+                f = self.facts.funcs[node.func.id]
+                a = f.args
+                if a.vararg or a.kwarg or a.posonlyargs or f.decorator_list or any(isinstance(x, ast.Starred) for x in node.args):
+                    raise NotConcrete('signature of {}'.format(f.name))
+                params = [x.arg for x in a.args]
+                e2 = {}
+                for p_, x in zip(params, node.args):
+                    e2[p_] = self.ev(x, env, depth)
+                if len(node.args) > len(params):
+                    raise NotConcrete('arity')
+                for kw in node.keywords:
+                    if kw.arg is None or kw.arg in e2 or kw.arg not in params + [x.arg for x in a.kwonlyargs]:
+                        raise NotConcrete('keyword')
+                    e2[kw.arg] = self.ev(kw.value, env, depth)
+                defaults = dict(zip(params[len(params) - len(a.defaults):], a.defaults))
+                defaults.update({x.arg: d for x, d in zip(a.kwonlyargs, a.kw_defaults) if d is not None})
+                for p_ in params + [x.arg for x in a.kwonlyargs]:
+                    if p_ not in e2:
+                        if p_ not in defaults:
+                            raise NotConcrete('missing argument {}'.format(p_))
+                        e2[p_] = self.ev(defaults[p_], {}, depth)
+                return self.run(list(f.body), e2, depth + 1)
+            name = dotted(node.func)
+            if name in ('bool', 'int', 'abs', 'min', 'max') and name not in self.facts.funcs and not node.keywords and node.args:
+                vals = [self.ev(x, env, depth) for x in node.args]
+                if name in ('bool', 'int', 'abs') and len(vals) != 1:
+                    raise NotConcrete('call ' + name)
+                return {'bool': lambda: int(bool(vals[0])), 'int': lambda: vals[0], 'abs': lambda: abs(vals[0]),
+                        'min': lambda: min(vals), 'max': lambda: max(vals)}[name]()
+        raise NotConcrete('expression {}'.format(type(node).__name__))
+
+
+def hi_spec(v, got):
+    """None when `got` is a correct %hi(v), else a description of what is wrong"""
+    want = ((v >> 12) + ((v >> 11) & 1)) & 0xfffff
+    if not isinstance(got, int) or isinstance(got, bool):
+        return 'not an integer'
+    if not -(1 << 19) <= got <= (1 << 19) - 1:
+        return 'outside the signed 20-bit range'
+    if (got - want) % (1 << 20):
+        return 'expected {} (mod 2^20)'.format(want - (1 << 20) if want & 0x80000 else want)
+    return None
+
+
+def lo_spec(v, got):
+    if not isinstance(got, int) or isinstance(got, bool):
+        return 'not an integer'
+    if not -2048 <= got <= 2047:
+        return 'outside the signed 12-bit range'
+    if (got - v) % 4096:
+        return 'not congruent to v modulo 2^12'
+    return None
+
+
+def counterexample(facts, body, bind, spec, call_hook=None):
+    """(v, result, what is wrong) for the first sample value on which the code contradicts the specification; None when the sample
+    agrees; raises NotConcrete when the code is outside the evaluator's fragment.  `bind(v)` gives the initial environment."""
+    ev = Concrete(facts, call_hook)
+    for v in sample_values():
+        call_env = bind(v)
+        got = ev.run(list(body), call_env)
+        why = spec(v, got)
+        if why is not None:
+            return v, got, why
+    return None
